@@ -23,7 +23,7 @@ RULE = ("product of payload length x API (download/force_segment/open wb with si
         "x dictionary entry {absent, every fixed-size type, string}; plus a length sweep (every length up to 1100 quick / 2100 "
         "thorough, + 7000, 10000 (20000, 70000)) with one download and one upload per length, API / framing / payload family "
         "{position pattern, 00.., FF.., 80.., NUL tail, bytes that look like abort / block frames} rotating. One state = one (case, protocol "
-        "step) of the client/server product; non-trivial = transfers with at least one segment frame or a predecessor")
+        "step) of the client/server product; non-trivial = transfers with at least one segment frame or a predecessor; declared sizes 1..8 through buffers of 2 and 3 bytes; fewer bytes written than announced (size 2..4) and more than an expedited transfer carries")
 ASSUMPTIONS = [
     "the reference server is written from CiA 301 and accepts every legal client framing (short non-final segments, either size indication)",
     "raw mode (buffering=0): the caller loop re-offers the unsent tail",
